@@ -104,6 +104,61 @@ def h_vp8(ctx, size):
     ctx.observe("n", len(payloads))
 
 
+class _Pkt:
+    """Stand-in for av.Packet (pre-encoded VP8 frame handed to pack())."""
+
+    def __init__(self, data, pts):
+        import fractions
+
+        self.data, self.pts, self.time_base = data, pts, fractions.Fraction(1, 90000)
+
+    def __bytes__(self):
+        return self.data
+
+
+class _Codec:
+    """Stand-in for the libvpx encoder context: returns one pre-set package per frame."""
+
+    def __init__(self, data, bit_rate):
+        self.width = self.height = 16
+        self.bit_rate = bit_rate
+        self.data = data
+
+    def encode(self, frame):
+        return [self.data]
+
+
+def h_vp8_stream(ctx, path):
+    """Inductive step over the encoder's picture-id state: from ANY 15-bit picture id, two
+    successive frames carry id and id+1 (mod 2^15), and the state stays a 15-bit id."""
+    import fractions
+
+    enc = Vp8Encoder()
+    pid = ctx.int("picture_id", 0, (1 << 15) - 1)
+    enc.picture_id = pid
+    ids = []
+    for k in range(2):
+        data = ctx.bytes("frame%d" % k, 2)
+        if path == "pack":
+            payloads, ts = enc.pack(_Pkt(data, 3000 * k))
+        else:
+            from av import VideoFrame
+
+            fr = VideoFrame(width=16, height=16, format="yuv420p")
+            fr.pts, fr.time_base = 3000 * k, fractions.Fraction(1, 90000)
+            enc.codec = _Codec(data, enc.target_bitrate)
+            payloads, ts = enc.encode(fr)
+        ctx.check(len(payloads) == 1 and ts == 3000 * k, "one-payload-and-timestamp")
+        d, rest = VpxPayloadDescriptor.parse(payloads[0])
+        ctx.check(sx.eq(rest, data), "frame-bytes-verbatim")
+        ids.append(d.picture_id)
+        ctx.check(sx.And(enc.picture_id >= 0, enc.picture_id < (1 << 15)), "picture-id-state-stays-15-bit")
+    ctx.reach("two-frames")
+    ctx.check(sx.eq(ids[0], pid), "frame-carries-the-current-picture-id")
+    ctx.check(sx.eq(ids[1], (pid + 1) % (1 << 15)), "next-frame-carries-the-next-picture-id-mod-2^15")
+    ctx.observe("ids", ids)
+
+
 def h_vp8_descriptor(ctx, mask):
     """Descriptor round trip for every field combination (I/L/T/K present or not)."""
     d = VpxPayloadDescriptor(
@@ -169,5 +224,6 @@ HARNESSES = {
     "h264": Harness("h264", h_h264, _h264_jobs, style="RT (size sweep)", bounds="1..3 (and 8..13 small) NAL units; sizes from the boundary set {2,3,1296..1302,2594..2600,3892..3896,59999,60000} and neighbours; header byte (F, NRI, type 1..23) and the first/last two body bytes symbolic", encoded=ENC, outside=["NAL sizes as solver variables (ropes of DESIGN 2.2 not built): sizes are swept, not symbolic"], twin="packetized"),
     "h264-split": Harness("h264-split", h_split, lambda tier: [{"sizes": s, "four": f} for s in ([2], [3, 2], [5, 40, 2], [1301, 3]) for f in range(1 << len(s))], style="RT", bounds="1..3 NAL units, every mix of 3- and 4-byte start codes; NAL content free of start codes and not ending in zero (assumed)", encoded=ENC, twin="split"),
     "vp8": Harness("vp8", h_vp8, lambda tier: [{"size": s} for s in ([0, 1, 2, 1296, 1297, 1298, 1299, 2594, 2596, 60000] if tier == "quick" else [0, 1, 2, 3, 1295, 1296, 1297, 1298, 1299, 1300, 2593, 2594, 2595, 2596, 2597, 3891, 3894, 59999, 60000])], style="RT (size sweep)", bounds="buffer sizes from the boundary set; picture id symbolic over 15 bits; first/last two bytes symbolic", encoded=ENC, twin="packetized"),
+    "vp8-stream": Harness("vp8-stream", h_vp8_stream, lambda tier: [{"path": "pack"}, {"path": "encode"}], style="STEP", bounds="encoder with ANY 15-bit picture id as pre-state, two successive 2-byte frames through pack() (pre-encoded packets) or encode() (libvpx context replaced by a stand-in that returns the frame bytes)", encoded=ENC + ["aiortc.codecs.vpx:Vp8Encoder.pack", "aiortc.codecs.vpx:Vp8Encoder.encode"], stubs=["av.Packet -> stand-in with bytes/pts/time_base", "libvpx codec context -> stand-in returning one package"], outside=["the VP8 encoder itself (libvpx)"], twin="two-frames", opts={"samples": 1}),
     "vp8-descriptor": Harness("vp8-descriptor", h_vp8_descriptor, lambda tier: [{"mask": m} for m in range(16)], style="RT", bounds="all 16 presence combinations of I/L/T/K with every field over its bit width", encoded=ENC, twin="descriptor-parsed"),
 }
